@@ -1,7 +1,391 @@
-import PonyVerif.Model.Cascade
+/-
+  Props/C15.lean — C15: deletion honours cascade rules and leaves no dangling references.
+  Statements about `Model/Cascade.lean` for ALL schemas, object graphs, recursion depths, and for both variants of `_delete_`
+  (with / without the re-entrancy guard, `guard`).  Proof machinery: Lemmas/Cascade*.lean.
+-/
+import PonyVerif.Lemmas.CascadeDel
 namespace PonyVerif.Props.C15
 open PonyVerif.Model.Cascade
 
-theorem C15_placeholder : (Store.empty).n = 0 := rfl
+/-! ## Session invariant -/
+
+/-- both ends of every relationship agree for live objects -/
+def Agree (sch : Schema) (s : Store) : Prop :=
+  ∀ p b q, s.alive p = true → hasB sch s p b q = true → hasB sch s q (sch.rev b) p = true
+
+/-- no live object references a deleted one (reference or collection membership) -/
+def NoDangling (sch : Schema) (s : Store) : Prop :=
+  ∀ p b q, s.alive p = true → hasB sch s p b q = true → s.alive q = true
+
+structure SInv (sch : Schema) (s : Store) : Prop where
+  range : Range sch s
+  agree : Agree sch s
+  nodang : NoDangling sch s
+
+theorem agreeX_nil {sch : Schema} {s : Store} : AgreeX sch (fun x => x ∈ ([] : List ObjId)) s ↔ Agree sch s := by
+  constructor
+  · intro h p b q hp hh
+    rcases h p b q hp hh with hm | ⟨hf, _⟩
+    · exact hm
+    · cases hf
+  · intro h p b q hp hh; exact Or.inl (h p b q hp hh)
+
+theorem noDangX_nil {sch : Schema} {s : Store} : NoDangX sch (fun x => x ∈ ([] : List ObjId)) s ↔ NoDangling sch s := by
+  constructor
+  · intro h p b q hp hh; exact h p b q hp (by simp) hh
+  · intro h p b q hp _ hh; exact h p b q hp hh
+
+/-- what a successful top-level `_delete_` guarantees (unpacked `Post` for the empty in-progress set) -/
+theorem post_of_delete {sch : Schema} (hwf : CascWF sch) (guard : Bool) (fuel : Nat) {s s' : Store} {a : ObjId}
+    (hI : SInv sch s) (h : delete sch guard fuel [] a s = .ok s') : Post sch (fun x => x ∈ ([] : List ObjId)) a s s' :=
+  delete_spec hwf guard fuel [] a s s' h hI.range (agreeX_nil.mpr hI.agree) (noDangX_nil.mpr hI.nodang)
+
+theorem sinv_of_post {sch : Schema} {s s' : Store} {a : ObjId} (hI : SInv sch s)
+    (hP : Post sch (fun x => x ∈ ([] : List ObjId)) a s s') : SInv sch s' :=
+  ⟨hP.trans.sub.range hI.range, agreeX_nil.mp hP.agree, noDangX_nil.mp hP.nodang⟩
+
+theorem reach_alive {sch : Schema} {s : Store} (hN : NoDangling sch s) {a x : ObjId} (ha : s.alive a = true)
+    (h : Reach sch s a x) : s.alive x = true := by
+  induction h with
+  | refl => exact ha
+  | step _ he ih =>
+    obtain ⟨b, _, hh⟩ := he
+    exact hN _ b _ ih hh
+
+/-! ## C15_cascade -/
+
+/-- After `delete a` succeeds: exactly the cascade closure of `a` (objects reachable over attributes with cascade_delete) is
+    newly deleted; the session invariant holds again — in particular no live object references a deleted one, i.e. every
+    optional reference / collection membership pointing to a deleted object is cleared; nothing is added; and a link between
+    two surviving objects is never touched. -/
+theorem C15_cascade (sch : Schema) (hwf : CascWF sch) (guard : Bool) (fuel : Nat) (s s' : Store) (a : ObjId)
+    (hI : SInv sch s) (hal : s.alive a = true) (h : delete sch guard fuel [] a s = .ok s') :
+    (∀ x, s'.alive x = false ↔ (s.alive x = false ∨ Reach sch s a x)) ∧
+    SInv sch s' ∧
+    (∀ p b q, hasB sch s' p b q = true → hasB sch s p b q = true) ∧
+    (∀ p b q, hasB sch s p b q = true → s'.alive p = true → s'.alive q = true → hasB sch s' p b q = true) := by
+  have hP := post_of_delete hwf guard fuel hI h
+  refine ⟨?_, sinv_of_post hI hP, hP.trans.sub.has, ?_⟩
+  · intro x
+    constructor
+    · intro hx
+      cases hs : s.alive x with
+      | false => exact Or.inl rfl
+      | true => exact Or.inr (hP.newdead x hs hx)
+    · rintro (hx | hx)
+      · exact hP.trans.sub.dead hx
+      · induction hx with
+        | refl =>
+          rcases hP.dead with hd | hf
+          · exact hd
+          · cases hf
+        | step hr he ih =>
+          rcases hP.trans.closed _ _ (reach_alive hI.nodang hal hr) ih he with hd | hf
+          · exact hd
+          · cases hf
+  · intro p b q hs hp hq
+    cases hs' : hasB sch s' p b q with
+    | true => rfl
+    | false =>
+      rcases hP.trans.rem p b q hs hs' with (hd | hf) | ⟨_, hd | hf⟩
+      · rw [hq] at hd; cases hd
+      · cases hf
+      · rw [hp] at hd; cases hd
+      · cases hf
+
+example : ∃ (sch : Schema) (s : Store), CascWF sch ∧ SInv sch s ∧ s.alive 0 = true ∧
+    ∃ s', delete sch false 5 [] 0 s = .ok s' ∧ s'.alive 0 = false := by
+  refine ⟨[], ⟨1, fun _ => 0, fun o => decide (o = 0), fun _ _ => none, fun _ _ _ => false⟩, ?_, ?_, rfl, _, rfl, rfl⟩
+  · intro a d rd h; simp [Schema.side] at h
+  · refine ⟨⟨?_, ?_⟩, ?_, ?_⟩ <;> intro p b q <;> simp [hasB, Schema.side]
+
+/-! ## C15_refuse -/
+
+/-- If an object `q` OUTSIDE the cascade closure of `a` holds an object `p` of the closure under a Required reference, then
+    `delete a` does not succeed (for any recursion depth); the top-level call then returns the store unchanged. -/
+theorem C15_refuse (sch : Schema) (hwf : CascWF sch) (guard : Bool) (fuel : Nat) (s : Store) (a p q : ObjId) (c : Attr) (d : Side)
+    (hI : SInv sch s) (hal : s.alive a = true)
+    (hp : Reach sch s a p) (hq : ¬ Reach sch s a q) (hqa : s.alive q = true)
+    (hc : sch.side c = some d) (hreq : d.required = true) (hdc : d.isColl = false) (hh : hasB sch s q c p = true) :
+    ∃ e, delete sch guard fuel [] a s = .error e := by
+  cases hr : delete sch guard fuel [] a s with
+  | error e => exact ⟨e, rfl⟩
+  | ok s' =>
+    exfalso
+    obtain ⟨hcl, hI', _, _⟩ := C15_cascade sch hwf guard fuel s s' a hI hal hr
+    have hP := post_of_delete hwf guard fuel hI hr
+    have hpd : s'.alive p = false := (hcl p).mpr (Or.inr hp)
+    have hqa' : s'.alive q = true := by
+      cases hx : s'.alive q with
+      | true => rfl
+      | false =>
+        rcases (hcl q).mp hx with h1 | h1
+        · rw [hqa] at h1; cases h1
+        · exact absurd h1 hq
+    have hkeep := hP.trans.keepreq q c p d hc hreq hdc hh
+    have := hI'.nodang q c p hqa' hkeep
+    rw [hpd] at this; cases this
+
+/-- a refused (failing) top-level delete changes nothing (the undo list restores the session: tied differentially) -/
+theorem C15_refuse_no_change (sch : Schema) (guard : Bool) (s : Store) (a : ObjId) :
+    (deleteTop sch guard s a).2 ≠ none → (deleteTop sch guard s a).1 = s := by
+  unfold deleteTop
+  split
+  · split
+    · intro hne; exact absurd rfl hne
+    · intro _; rfl
+  · intro _; rfl
+
+/-! ## C15_no_dangling -/
+
+/-- FK invariant of the committed rows: every FK value and every link-table row points to existing rows -/
+structure InvFk (sch : Schema) (db : Db) : Prop where
+  rowlt : ∀ o, db.row o = true → o < db.n
+  col : ∀ o a x, db.col o a = some x → db.row o = true ∧ db.row x = true ∧ a ∈ sch.allAttrs
+  link : ∀ c p q, db.link c p q = true → db.row p = true ∧ db.row q = true
+
+theorem holdsCol_side {sch : Schema} {a : Attr} (h : holdsCol sch a = true) : ∃ d, sch.side a = some d ∧ d.isColl = false := by
+  unfold holdsCol at h
+  cases hs : sch.side a with
+  | none => simp [hs] at h
+  | some d => exact ⟨d, rfl, by simp [hs] at h; exact h.1⟩
+
+/-- committing a consistent session leaves no dangling reference -/
+theorem commit_fk {sch : Schema} {s : Store} (hI : SInv sch s) : InvFk sch (commit sch s) := by
+  refine ⟨?_, ?_, ?_⟩
+  · intro o ho; simp [commit] at ho; exact ho.1
+  · intro o a x hx
+    simp only [commit] at hx
+    split at hx
+    · rename_i hcond
+      obtain ⟨hlt, hal, hcol⟩ := hcond
+      obtain ⟨d, hd, hdc⟩ := holdsCol_side hcol
+      have hh : hasB sch s o a x = true := by rw [hasB_ref_eq hd hdc, hx]; simp
+      refine ⟨by simp [commit, hlt, hal], ?_, Schema.mem_allAttrs hd⟩
+      have := hI.nodang o a x hal hh
+      have hxl := hI.range.lt o a x hh
+      simp [commit, this, hxl]
+    · cases hx
+  · intro c p q hl
+    simp only [commit, Bool.and_eq_true, decide_eq_true_eq] at hl
+    obtain ⟨⟨⟨hlt, hal⟩, hla⟩, hm⟩ := hl
+    have hd : ∃ d, sch.side c = some d ∧ d.isColl = true := by
+      unfold isLinkAttr at hla
+      cases hs : sch.side c with
+      | none => simp [hs] at hla
+      | some d =>
+        cases hs2 : sch.side (sch.rev c) with
+        | none => simp [hs, hs2] at hla
+        | some rd => simp [hs, hs2] at hla; exact ⟨d, rfl, hla.1.1⟩
+    obtain ⟨d, hd, hdc⟩ := hd
+    have hh : hasB sch s p c q = true := by rw [hasB_coll_eq hd hdc]; exact hm
+    have := hI.nodang p c q hal hh
+    have hql := hI.range.lt p c q hh
+    simp [commit, hlt, hal, this, hql]
+
+/-- one top-level `obj.delete()` keeps the session invariant, whatever its outcome -/
+theorem deleteTop_inv (sch : Schema) (hwf : CascWF sch) (guard : Bool) (s : Store) (a : ObjId) (hI : SInv sch s) :
+    SInv sch (deleteTop sch guard s a).1 := by
+  unfold deleteTop
+  split
+  · split
+    · rename_i s' hr
+      exact sinv_of_post hI (post_of_delete hwf guard _ hI hr)
+    · exact hI
+  · exact hI
+
+/-- session calls: `obj.delete()`, or any other call that keeps the session invariant (the C12 space; not re-proved here) -/
+inductive SOp
+  | delete (o : ObjId)
+  | other (f : Store → Store)
+
+def SOp.Good (sch : Schema) : SOp → Prop
+  | .delete _ => True
+  | .other f => ∀ s, SInv sch s → SInv sch (f s)
+
+def runOps (sch : Schema) (guard : Bool) : List SOp → Store → Store
+  | [], s => s
+  | .delete o :: ops, s => runOps sch guard ops (deleteTop sch guard s o).1
+  | .other f :: ops, s => runOps sch guard ops (f s)
+
+theorem runOps_inv (sch : Schema) (hwf : CascWF sch) (guard : Bool) : ∀ (ops : List SOp) (s : Store),
+    (∀ op ∈ ops, op.Good sch) → SInv sch s → SInv sch (runOps sch guard ops s) := by
+  intro ops
+  induction ops with
+  | nil => intro s _ hI; exact hI
+  | cons op ops ih =>
+    intro s hg hI
+    cases op with
+    | delete o => exact ih _ (fun x hx => hg x (by simp [hx])) (deleteTop_inv sch hwf guard s o hI)
+    | other f => exact ih _ (fun x hx => hg x (by simp [hx])) (hg (.other f) (by simp) s hI)
+
+/-- a bulk `DELETE` under the generated ON DELETE clauses keeps the FK invariant (when the database accepts it) -/
+theorem C15_bulk_no_dangling (sch : Schema) (db db' : Db) (rows : List ObjId) (hI : InvFk sch db)
+    (h : dbDelete sch db rows = some db') : InvFk sch db' := by
+  unfold dbDelete at h
+  simp only at h
+  split at h
+  · cases h
+  · rename_i hbad
+    cases h
+    generalize hD : cascadeClosure sch db db.n (List.filter (fun o => db.row o && rows.contains o) (List.range db.n)) = D at hbad
+    refine ⟨?_, ?_, ?_⟩
+    · intro o ho
+      simp only [Bool.and_eq_true] at ho
+      exact hI.rowlt o ho.1
+    · intro o a x hx
+      simp only at hx
+      split at hx
+      · cases hx
+      · rename_i hDo
+        cases hc : db.col o a with
+        | none => simp [hc] at hx
+        | some p =>
+          simp only [hc] at hx
+          split at hx
+          · cases hx
+          · rename_i hnn
+            have hxp : p = x := by simpa using hx
+            subst hxp
+            obtain ⟨hro, hrp, ha⟩ := hI.col o a p hc
+            have hDo' : D.contains o = false := by simpa using hDo
+            -- the statement was accepted: no surviving row points to a deleted one
+            have hDp : D.contains p = false := by
+              cases hDp : D.contains p with
+              | false => rfl
+              | true =>
+                exfalso
+                apply hbad
+                rw [List.any_eq_true]
+                refine ⟨o, List.mem_range.mpr (hI.rowlt o hro), ?_⟩
+                simp only [hro, hDo', Bool.not_false, Bool.and_self, Bool.true_and, List.any_eq_true]
+                refine ⟨a, ha, ?_⟩
+                simp only [hc]
+                simp only [hDp, Bool.true_and] at hnn
+                have hmem : p ∈ D := by simpa using hDp
+                simp [hnn, hmem]
+            exact ⟨by simp only [hro, hDo']; rfl, by simp only [hrp, hDp]; rfl, ha⟩
+    · intro c p q hl
+      simp only [Bool.and_eq_true, Bool.not_eq_true'] at hl
+      obtain ⟨⟨h1, h2⟩, h3⟩ := hl
+      obtain ⟨hp, hq⟩ := hI.link c p q h1
+      exact ⟨by simp only [hp, h2]; rfl, by simp only [hq, h3]; rfl⟩
+
+/-- the database after any history: sessions (load a consistent image, any sequence of deletes and invariant-keeping calls,
+    commit) and accepted bulk deletes (a refused bulk delete changes nothing) -/
+inductive DbReach (sch : Schema) (guard : Bool) : Db → Db → Prop
+  | refl (db : Db) : DbReach sch guard db db
+  | session {db0 db : Db} (s : Store) (ops : List SOp) : DbReach sch guard db0 db → commit sch s = db → SInv sch s →
+      (∀ op ∈ ops, op.Good sch) → DbReach sch guard db0 (commit sch (runOps sch guard ops s))
+  | bulk {db0 db db' : Db} (rows : List ObjId) : DbReach sch guard db0 db → dbDelete sch db rows = some db' → DbReach sch guard db0 db'
+
+/-- For a database satisfying the FK invariant, after any history of committed sessions (object deletes in any order, other
+    invariant-keeping calls) and bulk deletes the FK invariant holds again: no row references a missing row, no link-table
+    row references a missing row. -/
+theorem C15_no_dangling (sch : Schema) (hwf : CascWF sch) (guard : Bool) (db0 db : Db) (h0 : InvFk sch db0)
+    (h : DbReach sch guard db0 db) : InvFk sch db := by
+  induction h with
+  | refl => exact h0
+  | session s ops _ _ hI hg _ => exact commit_fk (runOps_inv sch hwf guard ops s hg hI)
+  | bulk rows _ hb ih => exact C15_bulk_no_dangling sch _ _ rows ih hb
+
+/-! ## C15_on_delete_matches — `generate_mapping`'s ON DELETE clause vs the in-memory rule, every relationship kind -/
+
+/-- what `Attribute.linked` accepts satisfies `CascWF` (a Required attribute is never a collection) -/
+theorem linked_cascWF (d rd : Decl) (hreq : rd.required = true → rd.isColl = false) (hok : linkedCheck d rd = true)
+    (hc : effCascade d rd = true) : rd.isColl = false := by
+  unfold linkedCheck at hok
+  unfold effCascade at hc hok
+  cases hd : d.optCascade with
+  | none =>
+    simp [hd] at hc
+    exact hreq hc.2
+  | some b =>
+    simp [hd] at hc
+    subst hc
+    simp [hd] at hok
+    cases hrc : rd.isColl with
+    | false => rfl
+    | true => simp [hrc] at hok
+
+/-- the two-object graph: object 0 (entity 0) holds object 1 (entity 1) under attribute `aC`, object 1 holds 0 under `aP` -/
+def aC : Attr := ⟨0, false⟩
+def aP : Attr := ⟨0, true⟩
+
+def sch2 (dC dP : Side) : Schema := [⟨dC, dP, false⟩]
+
+def store2 (collC collP : Bool) : Store where
+  n := 2
+  ent := fun o => o
+  alive := fun o => decide (o < 2)
+  ref := fun o a => if o = 0 ∧ a = aC ∧ collC = false then some 1 else if o = 1 ∧ a = aP ∧ collP = false then some 0 else none
+  mem := fun o a x => (decide (o = 0 ∧ a = aC ∧ x = 1) && collC) || (decide (o = 1 ∧ a = aP ∧ x = 0) && collP)
+
+/-- observable outcome: `none` = refused; else (row 0 exists, row 1 exists, FK value of row 0 under `aC`, link row (0,1) exists) -/
+def obsDb (db : Option Db) : Option (Bool × Bool × Option ObjId × Bool) :=
+  db.map fun db => (db.row 0, db.row 1, db.col 0 aC, db.link aC 0 1)
+
+/-- `obj.delete()` + commit -/
+def viaSession (sch : Schema) (guard : Bool) (s : Store) (o : ObjId) : Option Db :=
+  match deleteTop sch guard s o with
+  | (s', none) => some (commit sch s')
+  | (_, some _) => none
+
+/-- bulk `DELETE` of the row on the committed image -/
+def viaBulk (sch : Schema) (s : Store) (o : ObjId) : Option Db := dbDelete sch (commit sch s) [o]
+
+/-- child side of a reference relationship: entity 0, holds the column -/
+def childSide (req casc : Bool) : Side := ⟨0, false, req, casc, true⟩
+/-- parent side: entity 1, a collection (one-to-many) or a virtual one-to-one attribute -/
+def parentSide (coll casc : Bool) : Side := ⟨1, coll, false, casc, false⟩
+
+/-- Deleting the REFERENCED row/object (object 1), for every kind (one-to-many / one-to-one), Required/Optional child
+    attribute, cascade_delete on the referenced side or not, both variants of `_delete_`:
+    the bulk delete (which relies on the ON DELETE clause `onDelete` that `generate_mapping` emits) and the object delete
+    followed by commit leave the same rows, and the outcome is the one the clause names:
+    CASCADE -> both rows gone;  SET NULL -> child row stays with NULL;  none -> both are REFUSED. -/
+theorem C15_on_delete_matches (req collP cascP guard : Bool) :
+    let sch := sch2 (childSide req false) (parentSide collP cascP)
+    let s := store2 false collP
+    obsDb (viaBulk sch s 1) = obsDb (viaSession sch guard s 1) ∧
+    obsDb (viaBulk sch s 1) =
+      (match onDelete (childSide req false) (parentSide collP cascP) with
+       | .cascade => some (false, false, none, false)
+       | .setNull => some (true, false, none, false)
+       | .noAction => none) := by
+  cases req <;> cases collP <;> cases cascP <;> cases guard <;> exact ⟨rfl, rfl⟩
+
+/-- which combinations make a bulk delete of the referenced row fail loudly / cascade / set NULL -/
+theorem C15_on_delete_table (req collP cascP : Bool) :
+    onDelete (childSide req false) (parentSide collP cascP) =
+      (if cascP then .cascade else if req then .noAction else .setNull) := by
+  cases req <;> cases collP <;> cases cascP <;> rfl
+
+/-- Deleting the REFERENCING row/object (object 0, the column holder) never needs an ON DELETE clause: without cascade_delete on
+    that side the bulk delete and the object delete agree (the referenced row stays) ... -/
+theorem C15_delete_referencing_side (req collP cascP guard : Bool) :
+    let sch := sch2 (childSide req false) (parentSide collP cascP)
+    let s := store2 false collP
+    obsDb (viaBulk sch s 0) = obsDb (viaSession sch guard s 0) ∧ obsDb (viaBulk sch s 0) = some (false, true, none, false) := by
+  cases req <;> cases collP <;> cases cascP <;> cases guard <;> exact ⟨rfl, rfl⟩
+
+/-- ... but a one-to-one attribute with cascade_delete that itself holds the column has no database counterpart: the object
+    delete removes both rows, the bulk delete only the referencing one (no dangling reference either way). -/
+theorem C15_bulk_misses_cascade_from_column_side (guard : Bool) :
+    let sch := sch2 (childSide false true) (parentSide false false)
+    let s := store2 false false
+    obsDb (viaSession sch guard s 0) = some (false, false, none, false) ∧
+    obsDb (viaBulk sch s 0) = some (false, true, none, false) := by
+  cases guard <;> exact ⟨rfl, rfl⟩
+
+/-- many-to-many: deleting either end removes the link row, in memory (the collection is cleared) and in the database
+    (`ON DELETE CASCADE` on both link-table keys) -/
+theorem C15_on_delete_matches_m2m (guard : Bool) (o : ObjId) (ho : o = 0 ∨ o = 1) :
+    let sch := sch2 ⟨0, true, false, false, false⟩ ⟨1, true, false, false, false⟩
+    let s := store2 true true
+    obsDb (viaBulk sch s o) = obsDb (viaSession sch guard s o) ∧
+    obsDb (viaBulk sch s o) = some (decide (o = 1), decide (o = 0), none, false) ∧
+    obsDb (some (commit sch s)) = some (true, true, none, true) := by
+  rcases ho with rfl | rfl <;> cases guard <;> exact ⟨rfl, rfl, rfl⟩
 
 end PonyVerif.Props.C15
